@@ -405,6 +405,12 @@ func TestReplay(t *testing.T) {
 		for i := range res.Log.Events {
 			if res.Log.Events[i].Kind != "obs.snap" {
 				fmt.Println(res.Log.Events[i].String())
+			} else if sn, ok := res.Log.Events[i].Data.(Snap); ok && os.Getenv("VERIF_VERBOSE") == "2" {
+				line := ""
+				for _, st := range sn.States {
+					line += fmt.Sprintf(" %s:%s/%s/%d", st.Name, st.Status, st.Health, st.ExitCode)
+				}
+				fmt.Printf("%06d %9.3fs      snap stable=%v%s\n", res.Log.Events[i].Seq, res.Log.Events[i].T.Seconds(), sn.Stable, line)
 			}
 		}
 	}
